@@ -130,6 +130,14 @@ class Built:
     def fresh(self, i: int):
         return self._build(i, fresh=True)
 
+    def get(self, i: int, mode):
+        """mode False: the shared (canonical) object; True: a freshly built equal object; 2: a freshly
+        built object that went through pickle (as tasks returned by other tasks or loaded from files do)."""
+        if mode == 2:
+            import pickle
+            return pickle.loads(pickle.dumps(self._build(i, fresh=True)))
+        return self._build(i, fresh=True) if mode else self.canon[i]
+
     def key(self, i: int) -> tuple:
         return (self.spec.types[i], self.spec.labels[i])
 
